@@ -62,6 +62,15 @@ def body_for(rng, types, it_expr_x, it_expr_y, it, kind, x="x"):
         body.append(["write", "m", ["p", ["b", "+", ["v", x], ["v", it]], t], ["c", ">", ["v", "en"], ["v", it]]])
         body.append(["place", "lamp", "small-lamp", it_expr_x, it_expr_y, None])
         body.append(["set", "lamp", "enable", ["c", ">", ["r", "m"], ["n", 0]]])
+    elif kind == "itercond":
+        # a condition over compile-time ints only (iterator vs literal / int variable) in front of a RUN-TIME value:
+        # true in some iterations, false in others
+        t = types.fresh()
+        k = rng.randint(-1, 3)
+        cond = ["c", rng.choice(CMP_OPS), ["v", it], ["n", k]] if rng.random() < 0.6 else ["c", rng.choice(CMP_OPS), ["n", k], ["v", it]]
+        body.append(["sig", "g", ["p", ["s", cond, ["b", "*", ["v", x], ["n", rng.randint(2, 5)]]], t]])
+        body.append(["place", "lamp", "small-lamp", it_expr_x, it_expr_y, None])
+        body.append(["set", "lamp", "enable", ["c", ">", ["v", "g"], ["n", rng.randint(0, 20)]]])
     elif kind == "call":
         body.append(["place", "lamp", "small-lamp", it_expr_x, it_expr_y, None])
         body.append(["set", "lamp", "enable", ["c", ">", ["call", "f", [["v", x], ["v", it]]], ["n", rng.randint(0, 20)]]])
@@ -110,7 +119,7 @@ def make_loop_prog(rng, rng_spec, kind, nest=1, bounds_via_vars=False):
     return prog
 
 
-KINDS = ["cmp", "local", "literal", "intvar", "memory", "call"]
+KINDS = ["cmp", "local", "literal", "intvar", "memory", "call", "itercond", "itercond"]
 
 
 def gen_cases(tier, seed):
